@@ -796,6 +796,13 @@ def check_dtypes(prog, rep, f, pub, call, entry, c):
         if dt is not None and dt.endswith('.dtype') and name in c.k.arrays and isinstance(c.k.arrays[name].dtype, str) and \
                 not c.k.arrays[name].dtype.endswith('.dtype'):
             dt = c.k.arrays[name].dtype
+        if dt is not None and dt.isidentifier():
+            # the dtype held in a module-level constant (`_LABEL_DTYPE = np.float64`): decided by its value
+            r_ = prog.resolve_name(f, f.module, dt)
+            if isinstance(r_, tuple) and r_ and r_[0] == 'modvalue' and isinstance(r_[3], ast.AST):
+                dt = norm(r_[3])
+                if dt.startswith(('np.dtype(', 'numpy.dtype(')) and dt.endswith(')'):
+                    dt = dt[dt.index('(') + 1:-1]
         like = short(cl).endswith('_like')
         ok = dt in WIDE_OK if not (like and dt is None) else False
         if dt is not None and ('%s.dtype' % data) in dt:
